@@ -11,7 +11,7 @@ use tracing::warn;
 use crate::{
     actor::ActorId,
     agent::{Booked, Bookie},
-    base::{CrsqlDbVersion, CrsqlSeq},
+    base::{CrsqlDbVersion, CrsqlSeq, prealloc_for},
     broadcast::{ChangeV1, Timestamp},
 };
 
@@ -258,11 +258,12 @@ where
 
         // Read need: HashMap<ActorId, Vec<RangeInclusive<CrsqlDbVersion>>>
         let need_len = usize::read_from(reader)?;
-        let mut need = HashMap::with_capacity(need_len);
+        // actor id + ranges length
+        let mut need = HashMap::with_capacity(prealloc_for(reader, need_len, 16 + 8)?);
         for _ in 0..need_len {
             let actor_id = ActorId::read_from(reader)?;
             let ranges_len = usize::read_from(reader)?;
-            let mut ranges = Vec::with_capacity(ranges_len);
+            let mut ranges = Vec::with_capacity(prealloc_for(reader, ranges_len, 8 + 8)?);
             for _ in 0..ranges_len {
                 let start = CrsqlDbVersion::read_from(reader)?;
                 let end = CrsqlDbVersion::read_from(reader)?;
@@ -273,15 +274,20 @@ where
 
         // Read partial_need: HashMap<ActorId, HashMap<CrsqlDbVersion, Vec<RangeInclusive<CrsqlSeq>>>>
         let partial_need_len = usize::read_from(reader)?;
-        let mut partial_need = HashMap::with_capacity(partial_need_len);
+        // actor id + versions length
+        let mut partial_need =
+            HashMap::with_capacity(prealloc_for(reader, partial_need_len, 16 + 8)?);
         for _ in 0..partial_need_len {
             let actor_id = ActorId::read_from(reader)?;
             let versions_len = usize::read_from(reader)?;
-            let mut versions_map = HashMap::with_capacity(versions_len);
+            // version + seq ranges length
+            let mut versions_map =
+                HashMap::with_capacity(prealloc_for(reader, versions_len, 8 + 8)?);
             for _ in 0..versions_len {
                 let version = CrsqlDbVersion::read_from(reader)?;
                 let seq_ranges_len = usize::read_from(reader)?;
-                let mut seq_ranges = Vec::with_capacity(seq_ranges_len);
+                let mut seq_ranges =
+                    Vec::with_capacity(prealloc_for(reader, seq_ranges_len, 8 + 8)?);
                 for _ in 0..seq_ranges_len {
                     let start = CrsqlSeq::read_from(reader)?;
                     let end = CrsqlSeq::read_from(reader)?;
@@ -384,7 +390,7 @@ where
             1 => {
                 let version = CrsqlDbVersion::read_from(reader)?;
                 let seqs_len = usize::read_from(reader)?;
-                let mut seqs = Vec::with_capacity(seqs_len);
+                let mut seqs = Vec::with_capacity(prealloc_for(reader, seqs_len, 8 + 8)?);
                 for _ in 0..seqs_len {
                     let start = CrsqlSeq::read_from(reader)?;
                     let end = CrsqlSeq::read_from(reader)?;
@@ -401,6 +407,13 @@ where
             ))
             .into()),
         }
+    }
+
+    // variant tag + the smallest variant (`Empty { ts: None }`); lets speedy validate the
+    // length of a `Vec<SyncNeedV1>` against the remaining input before allocating it
+    #[inline]
+    fn minimum_bytes_needed() -> usize {
+        2
     }
 }
 
